@@ -167,8 +167,11 @@ where
                     };
 
                     // Committing shuold never need to send an immediate disposition
-                    if let Some(disposition) =
-                        self.session.on_incoming_transfer(transfer, payload).await?
+                    // The frame was counted when it arrived
+                    if let Some(disposition) = self
+                        .session
+                        .deliver_incoming_transfer(transfer, payload)
+                        .await?
                     {
                         self.control
                             .send(SessionControl::Disposition(disposition))
@@ -307,6 +310,9 @@ where
     ) -> Result<Option<Disposition>, Self::Error> {
         let (txn, txn_id) = match &transfer.state {
             Some(DeliveryState::TransactionalState(state)) => {
+                // A transactional post is a transfer frame like any other for the session window:
+                // it is counted when it arrives (and only delivered to the link on commit)
+                self.session.count_incoming_transfer();
                 let txn_id = &state.txn_id;
                 self.txn_manager
                     .txns
@@ -318,6 +324,18 @@ where
         };
 
         Ok(txn.on_incoming_post(txn_id, transfer, payload))
+    }
+
+    fn count_incoming_transfer(&mut self) {
+        self.session.count_incoming_transfer()
+    }
+
+    async fn deliver_incoming_transfer(
+        &mut self,
+        transfer: Transfer,
+        payload: Payload,
+    ) -> Result<Option<Disposition>, Self::Error> {
+        self.session.deliver_incoming_transfer(transfer, payload).await
     }
 
     fn on_incoming_disposition(
